@@ -50,7 +50,7 @@ def good(tag, rng, small=True):
     return r
 
 
-def build(rng, n, k, cls, v, status, transport="u", delay=None):
+def build(rng, n, k, cls, v, status, transport="u", delay=None, eof=True):
     stream = b""
     acts = []
     wu = []
@@ -77,8 +77,12 @@ def build(rng, n, k, cls, v, status, transport="u", delay=None):
             wrb.append(hx(body))
     if not acts:
         acts = [action_str([], respond_str(200, b"never", True))]
-    extra = "wu=%s ws=%s wrb=%s we=closed cls=%s" % (j(wu), j(ws), j(wrb), cls)
-    return cv_line(stream, acts, transport=transport, extra=extra), {"class": cls, "position": k, "n": n}
+    # a client that keeps its sending side open must still get the definitive outcome promptly: the
+    # connection stays open only after a 505 that was the last thing sent
+    we = "closed" if (eof or cls != "version") else "open"
+    extra = "wu=%s ws=%s wrb=%s we=%s cls=%s" % (j(wu), j(ws), j(wrb), we, cls)
+    return (cv_line(stream, acts, transport=transport, eof=eof, extra=extra + ("" if eof else " limit=2500")),
+            {"class": cls, "position": k, "n": n, "client_half_closes": eof})
 
 
 def gen(tier, rng):
@@ -89,6 +93,13 @@ def gen(tier, rng):
                 for n in (1, 2, 3, 4):
                     for k in range(n):
                         yield build(rng, n, k, cls, v, status)
+    # the client does not half-close: the outcome must arrive without it (prompt answer, no stall)
+    for cls, variants, status in CLASSES:
+        for v in variants[:3]:
+            for n in (1, 2, 3):
+                yield build(rng, n, n - 1, cls, v, status, eof=False)
+                if n > 1:
+                    yield build(rng, n, 0, cls, v, status, eof=False)
     # a TCP sample
     for cls, variants, status in CLASSES:
         yield build(rng, 2, 1, cls, variants[0], status, transport="t")
